@@ -495,6 +495,17 @@ def rule_pqr_reader(prog, rep, rid, title="pdb2pqr's own PQR reader turns every 
                 isinstance(a, dict) and all(a.get(k) == w[k] for k in w) for a, w in zip(atoms3, want))
             r.add(f"reader|file-as-written|{tag}", same, f"the file print_pqr writes for {tag} ({len(flines)} lines) is read back as "
                   f"{len(atoms3) if isinstance(atoms3, list) else '?'} atoms" + ("" if same else f", expected the {len(want)} written ones with equal fields"), where)
+            if is_cif or not same:
+                continue
+            # two written files one after the other (the PQR of a complex made by concatenating the parts): TER/END sit in the middle
+            try:
+                atoms4 = run.call_function("io.py", "read_pqr", list(flines) + list(flines))
+            except Flow as fl:
+                r.bad(f"reader|two-files-concatenated|{tag}", f"read_pqr stops with {fl.value} on two written files concatenated", where)
+                continue
+            n4 = len(atoms4) if isinstance(atoms4, list) else None
+            r.add(f"reader|two-files-concatenated|{tag}", n4 == 2 * len(want), f"two files written for {tag}, concatenated (END in the middle): {n4} atoms read, "
+                  f"{2 * len(want)} coordinate records" + ("" if n4 == 2 * len(want) else " -- records after the first END are lost without a word"), where)
     r.info["model_lines"] = len(lines)
     r.info["methods_interpreted"] = sorted(set(run.calls))
 
